@@ -53,6 +53,10 @@ inductive Res (α : Type) where
 /-- `UpdateBuilder::MAX_PDU` (update_builder.rs:28) -/
 def MAX_PDU : Nat := 4096
 
+/-- the literal of `if compose_len > 4000 {` in `take_message` (update_builder.rs:475): the size of a
+batch of MP withdrawals (tied to the source by `Rc.Gen.batchThreshold`, `Rc.Thm.C06.model_constants_agree`) -/
+abbrev BATCH : Nat := 4000
+
 /-- `UpdateBuilder { announcements, withdrawals, attributes }` -/
 structure B (N : Type) where
   wd : Option (List N)
@@ -181,7 +185,7 @@ def takeMessage (b : B N) : Res (Msg N) × Option (B N) :=
     | some (w :: ws) =>
       -- scenario 2: withdrawals in MP_UNREACH_NLRI, batches of 4000 bytes
       let l := w :: ws
-      let k := splitPoint sz 4000 l
+      let k := splitPoint sz BATCH l
       let pdu := intoMessage sz { wd := some (l.take k), ann := none, attrs := [] }
       let rest := l.drop k
       let b' : B N := { b with wd := if rest.isEmpty then none else some rest }
